@@ -161,6 +161,8 @@ class Interp:
         self.unknown_calls = set()
         self.unknown_mem = []     # accesses through tracked pointers with unknown offset
         self.notes = []
+        self.hooks = {}           # callee name -> f(interp, call node, args) -> value
+        self.events = []          # free-form events recorded by hooks (per outcome)
 
     # ----- public
     def run(self, args):
@@ -179,6 +181,7 @@ class Interp:
             self.dpos = 0
             self.new_forks = []
             self.acc = []
+            self.events = []
             env = {}
             for p, v in zip(self.fn.params, args):
                 env[p["d"]] = v
@@ -187,7 +190,7 @@ class Interp:
                 self.exec_fn(self.fn, env, 0)
             except _Return as r:
                 ret = r.v
-            outcomes.append((self.acc, ret))
+            outcomes.append((self.acc, ret, self.events) if getattr(self, "with_events", False) else (self.acc, ret))
             for d in self.new_forks:
                 pending.append(d)
         return outcomes
@@ -430,8 +433,29 @@ class Interp:
                 return Ptr(b.base, U, esz), esz
             return None, sz or 1
         if n.k == "MemberExpr":
-            return None, 0
+            off = self.field_offset(n)
+            sz = TYPE_SIZES.get(clean_type(n.t), None) or 1
+            if off is None or not n.c:
+                return None, sz
+            if n.get("arrow"):
+                b = self.rv(self.ev(n.c[0], env, fn, depth), env)
+            else:
+                b, _ = self.addr(n.c[0], env, fn, depth)
+            if isinstance(b, Ptr):
+                if isinstance(b.off, int):
+                    return Ptr(b.base, b.off + off, sz), sz
+                return Ptr(b.base, U, sz), sz
+            return None, sz
         return None, 0
+
+    def field_offset(self, n):
+        rec = self.P.records.get(n.get("rec"))
+        if not rec:
+            return None
+        for f in rec["fields"]:
+            if f["n"] == n.name and f.get("off") is not None:
+                return f["off"] // 8
+        return None
 
     def access(self, p, size, kind, node, masked=False):
         if not isinstance(p, Ptr):
@@ -455,6 +479,11 @@ class Interp:
             ck = e.get("ck")
             if ck == "LValueToRValue":
                 return self.load(e.c[0], v, env, fn, depth)
+            if ck == "ArrayToPointerDecay" and e.c[0].strip().k in ("MemberExpr", "ArraySubscriptExpr"):
+                p_, _sz = self.addr(e.c[0].strip(), env, fn, depth)
+                if p_ is not None:
+                    return Ptr(p_.base, p_.off, pointee_size(e.t) or 1)
+                return U
             if isinstance(v, Ptr):
                 ps = pointee_size(e.t)
                 if ps is not None and ck in ("BitCast", "NoOp", "CPointerToObjCPointerCast") or (ps is not None and k == "CStyleCastExpr"):
@@ -509,10 +538,15 @@ class Interp:
         if isinstance(v, tuple) and v and v[0] == "LV":
             return env.get(v[1], U)
         n = lnode.strip()
-        if n.k in ("ArraySubscriptExpr",) or (n.k == "UnaryOperator" and n.op == "*"):
+        if n.k in ("ArraySubscriptExpr", "MemberExpr") or (n.k == "UnaryOperator" and n.op == "*"):
             p, size = self.addr(n, env, fn, depth)
             if p is not None:
                 self.access(p, size, "r", lnode)
+                mem = getattr(self, "memory", None)
+                if mem is not None and isinstance(p.off, int):
+                    v2 = mem(p.base, p.off, size)
+                    if v2 is not None:
+                        return v2
             return U
         return U
 
@@ -536,9 +570,11 @@ class Interp:
             return ("MEM", e)
         if op == "&":
             t = e.c[0].strip()
-            if t.k == "ArraySubscriptExpr" or (t.k == "UnaryOperator" and t.op == "*"):
+            if t.k in ("ArraySubscriptExpr", "MemberExpr") or (t.k == "UnaryOperator" and t.op == "*"):
                 p, size = self.addr(t, env, fn, depth)
                 return p if p is not None else U
+            if t.k == "DeclRefExpr" and t.get("d") is not None and t.get("dk") in ("local", "param"):
+                return ("ADDR", t.get("d"), t.t)
             return U
         v = self.rv(self.ev(e.c[0], env, fn, depth), env)
         if not isinstance(v, int):
@@ -684,10 +720,20 @@ class Interp:
         args = [self.rv(self.ev(a, env, fn, depth), env) for a in e.args()]
         if name is None:
             return U
+        if name in self.hooks:
+            return self.hooks[name](self, e, args)
         if name in ("memcpy", "memmove", "__builtin_memcpy", "__builtin_memmove", "__memcpy_chk"):
             n = args[2] if len(args) > 2 else U
             self.access(args[0], n, "w", e)
             self.access(args[1], n, "r", e)
+            if isinstance(args[0], tuple) and args[0] and args[0][0] == "ADDR":
+                val = U
+                mem = getattr(self, "memory", None)
+                if mem is not None and isinstance(args[1], Ptr) and isinstance(args[1].off, int) and isinstance(n, int):
+                    v2 = mem(args[1].base, args[1].off, n)
+                    if v2 is not None:
+                        val = wrap(v2, args[0][2]) if isinstance(v2, int) else v2
+                env[args[0][1]] = val
             return args[0]
         if name in ("memset", "__builtin_memset", "__memset_chk"):
             self.access(args[0], args[2] if len(args) > 2 else U, "w", e)
@@ -718,9 +764,21 @@ class Interp:
             return U
         if name in ("__builtin_expect",):
             return args[0]
-        if name in ("__builtin_ctz", "__builtin_ctzll", "__builtin_clz", "__builtin_popcount",
-                    "__builtin_popcountll", "_mm_popcnt_u32", "_mm_popcnt_u64"):
-            return U
+        if name in ("__builtin_ctz", "__builtin_ctzll", "__builtin_ctzl", "__builtin_clz", "__builtin_clzll",
+                    "__builtin_clzl", "__builtin_popcount", "__builtin_popcountll", "__builtin_popcountl",
+                    "_mm_popcnt_u32", "_mm_popcnt_u64"):
+            v = args[0] if args else U
+            if not isinstance(v, int):
+                return U
+            bits = 64 if name.endswith(("ll", "l", "u64")) else 32
+            v &= (1 << bits) - 1
+            if "popc" in name:
+                return bin(v).count("1")
+            if v == 0:
+                return U   # undefined behaviour of clz/ctz at 0
+            if "clz" in name:
+                return bits - v.bit_length()
+            return (v & -v).bit_length() - 1
         # repo function: inline
         cands = [f for f in self.P.by_name.get(name, []) if f.file == fn.file] or \
                 [f for f in self.P.by_name.get(name, [])]
